@@ -34,7 +34,6 @@ import (
 	"go.lsp.dev/protocol"
 
 	"github.com/juev/hledger-lsp/internal/analyzer"
-	"github.com/juev/hledger-lsp/internal/parser"
 	"github.com/juev/hledger-lsp/internal/server"
 )
 
@@ -218,7 +217,7 @@ func c16Analysis(srv *server.Server, uri protocol.DocumentURI, doc string) *anal
 	if r := srv.GetResolved(uri); r != nil {
 		return a.AnalyzeResolved(r)
 	}
-	j, _ := parser.Parse(doc)
+	j, _ := hxParse(doc)
 	return a.Analyze(j)
 }
 
